@@ -1796,6 +1796,10 @@ type TablePageBreakConfig struct {
 
 // SetTablePageBreak 设置表格分页控制
 func (t *Table) SetTablePageBreak(config *TablePageBreakConfig) error {
+	if config == nil {
+		return fmt.Errorf("表格分页配置不能为空")
+	}
+
 	// 表格级别的分页控制通常在表格属性中设置
 	// 这里先记录配置，实际XML输出时需要相应的实现
 	Info(fmt.Sprintf("设置表格分页控制：保持与下一段落=%t，保持行=%t，段前分页=%t，孤行控制=%t",
